@@ -10,13 +10,18 @@ HEADER = """From GM Require Import Corr.CorrBase Corr.CheckC17.
 Open Scope float_scope.
 """
 
-RULE = ("rotation cases: axis direction uniform, |axis| log-uniform in [1e-6,1e6], theta in [-20,20]; "
+RULE = ("rotation cases: axis direction uniform / coordinate axes / small-integer directions, |axis| log-uniform in [1e-6,1e6] "
+        "and (one third) boundary lengths (exactly and almost 1 at 1e-3..1e-14, powers of 2 and 10, range ends), theta in [-20,20] and special angles; "
         "frame cases: generic triples at scale 1e-3..1e3, exactly collinear triples (axes, diagonals, random integer "
         "directions; dyadic and decimal scales), coincident middle point, coincident end points (error branch). "
         "A case is non-trivial when distinct; frame cases additionally record the branch taken.")
 
 
 # ------------------------------------------------------------------ generators
+SPECIAL_NORMS = [1.0, 1 + 1e-3, 1 - 1e-3, 1 + 5e-5, 1 - 5e-5, 1 + 1e-6, 1 - 1e-6, 1 + 1e-8, 1 - 1e-8,
+                 1 + 1e-10, 1 - 1e-10, 1 + 1e-12, 1 + 1e-14, 2.0, 0.5, 10.0, 0.1, 1e-6, 1e6, 1e-3, 1e3]
+
+
 def gen_rot(rs):
     d = rs.normal(size=3)
     d /= np.linalg.norm(d)
@@ -29,6 +34,11 @@ def gen_rot(rs):
             d[0] = 1.0
         d /= np.linalg.norm(d)
     norm = 10 ** rs.uniform(-6, 6)
+    if rs.randint(0, 3) == 0:
+        # boundary values of the axis length: exactly / almost unit, powers of two and ten, range ends
+        norm = float(rs.choice(SPECIAL_NORMS))
+        if rs.randint(0, 2) == 0:
+            norm = 1.0 + (norm - 1.0) * rs.uniform(0.1, 1.0) if abs(norm - 1.0) < 0.01 else norm
     theta = rs.uniform(-20, 20)
     if rs.randint(0, 10) == 0:
         theta = rs.choice([0.0, math.pi, -math.pi, math.pi / 2, 2 * math.pi])
